@@ -911,6 +911,9 @@ def gen_dyn2(rng):
   if not ENABLE_DYN_THREE_PLAIN_IMPORTS_OF_ONE_PACKAGE:
     for mod in [m for m in sorted(forms) if forms[m] == 0][2:]:
       forms[mod] = 1
+  elif len(forms) >= 3 and rng.random() < 0.35:
+    # several plain imports of modules of one package: every one binds the package name, the string has to add imports of its own
+    forms = {mod: 0 for mod in forms}
   mll = rng.choice([80, 80, 200, 40, 20, 10, 5, 2])
   ci = rng.choice([c for c in [4, 4, 0, 1, 8, mll - 1] if 0 <= c < mll])
   perms = []
